@@ -49,25 +49,20 @@ theorem later_binding_hides (g : Graph) (b : BId) (n k : NodeId) (hreg : (g.node
   obtain ⟨m, hm, hp, _⟩ := (visible_away_iff g b n hreg).1 h
   exact hsep m hm (hp.mono (by intro x hx; simp at hx; subst hx; exact hk))
 
-/-- **Rebinding keeps them visible.**  After `param.PasteVariable(param.AssignToNewVariable(k), k)` the binding `b` has
-an origin at `k` whose source is the copy `c`, and `c` has its origin at `k` with source `b`: `b` is visible at `k`… -/
-theorem rebound_visible_here (g : Graph) (b c : BId) (k : NodeId) (ob oc : Origin)
+/-- **Rebinding keeps them visible.**  `param.PasteVariable(param.AssignToNewVariable(k), k)` gives every binding `b`
+of the parameter an origin at `k` whose source set is `{b}` itself (the copy's only origin is at `k`, so `PasteBinding`
+copies it verbatim): `b` is visible at `k`… -/
+theorem rebound_visible_here (g : Graph) (b : BId) (k : NodeId) (ob : Origin)
     (hreg : (g.node k).bindings.contains b = true)
-    (hb : g.findOrigin b k = some ob) (hbs : [c] ∈ ob.sourceSets)
-    (hc : g.findOrigin c k = some oc) (hcs : [b] ∈ oc.sourceSets) (hne : c ≠ b)
-    (hnc : NoConflict g (sinsert c [b])) : Expl g k [b] := by
+    (hb : g.findOrigin b k = some ob) (hbs : [b] ∈ ob.sourceSets) : Expl g k [b] := by
   have hmem : b ∈ (g.node k).bindings := by simpa using hreg
   have hh : hereGoals g k [b] = [b] := by simp [hereGoals, hmem]
   have ha : awayGoals g k [b] = [] := by simp [awayGoals, hmem]
-  refine Expl.fin (R := sinsert c [b]) ?_ hnc
+  refine Expl.fin (R := sinsert b []) ?_ (by simp [NoConflict, goalsConflict, sinsert])
   rw [hh, ha]
-  refine Removal.expand (o := ob) (ss := [c]) (by simp) hb hbs ?_
-  have e1 : sunion [] [c] = [c] := by simp [sunion, sinsert]
+  refine Removal.expand (o := ob) (ss := [b]) (by simp) hb hbs ?_
+  have e1 : sunion [] [b] = [b] := by simp [sunion, sinsert]
   rw [e1]
-  refine Removal.expand (o := oc) (ss := [b]) (by simpa using hne) hc hcs ?_
-  have e2 : sunion [] [b] = [b] := by simp [sunion, sinsert]
-  have e3 : sinsert b [] = [b] := by simp [sinsert]
-  rw [e2, e3]
   exact Removal.skip (by simp) (Removal.done _ _ _)
 
 /-- … and from every later node that reaches `k` by a backward path on which the variable is not bound again. -/
